@@ -16,13 +16,25 @@ with the multiplication operator, to construct values such as `11 * e(-21)`.
 """
 
 from enum import Enum
-from decimal import Decimal
-from typing import Optional, Any, Union, Tuple
+from decimal import Decimal, localcontext
+from typing import Optional, Any, Union, Tuple, Callable
 from pydantic import BaseModel, Field
 from pydantic.dataclasses import dataclass
 
 
 EPSILON = 20
+
+
+def _exactly(fn: Callable, *nums: Decimal) -> Any:
+    """Evaluate `fn()` in a decimal context precise enough that sums, differences, products and
+    power-of-ten rescalings of `nums` (across the full range of `Prefix`es) are exact.
+    The default 28-digit context silently rounds, e.g. `1 * YOTTA + 1 * YOCTO`."""
+    finite = [n for n in nums if n.is_finite()] or [Decimal(0)]
+    digits = sum(len(n.as_tuple().digits) for n in finite)
+    span = max(n.adjusted() for n in finite) - min(n.as_tuple().exponent for n in finite)
+    with localcontext() as ctx:
+        ctx.prec = max(ctx.prec, digits + span + 2 * 48 + EPSILON + 8)
+        return fn()
 
 
 class Prefix(Enum):
@@ -216,17 +228,20 @@ class Prefixed(BaseModel):
 
     def __mul__(self, other) -> "Prefixed":
         if isinstance(other, Prefixed):
-            return (self.number * other.number * self.prefix * other.prefix).scale()
+            return _exactly(
+                lambda: self.number * other.number * self.prefix * other.prefix,
+                self.number,
+                other.number,
+            ).scale()
         elif not isinstance(other, (str, int, float, Decimal)):
             return NotImplemented
-        return Prefixed.new(self.number * Decimal(str(other)), self.prefix).scale()
+        other = Decimal(str(other))
+        return Prefixed.new(
+            _exactly(lambda: self.number * other, self.number, other), self.prefix
+        ).scale()
 
     def __rmul__(self, other) -> "Prefixed":
-        if isinstance(other, Prefixed):
-            return (self.number * other.number * self.prefix * other.prefix).scale()
-        elif not isinstance(other, (str, int, float, Decimal)):
-            return NotImplemented
-        return Prefixed.new(self.number * Decimal(str(other)), self.prefix).scale()
+        return self.__mul__(other)
 
     def __truediv__(self, other) -> "Prefixed":
         if isinstance(other, Prefixed):
@@ -296,7 +311,9 @@ class Prefixed(BaseModel):
     def scale(self, prefix: Prefix = None) -> "Prefixed":
         """Scale to a new `Prefix`"""
         if isinstance(prefix, Prefix):
-            newnum = self.number * Decimal(10) ** (self.prefix.value - prefix.value)
+            # Shift the decimal exponent, exactly
+            shift = self.prefix.value - prefix.value
+            newnum = _exactly(lambda: self.number.scaleb(shift), self.number)
             return Prefixed.new(newnum, prefix)
         else:
             newpref = Prefix.closest(abs(self.number).log10() + self.prefix.value)
@@ -358,23 +375,27 @@ def to_prefixed(v: Union[Prefixed, ToPrefixed]) -> Prefixed:
 def _add(lhs: Prefixed, rhs: Prefixed) -> Prefixed:
     """`Prefixed` Addition"""
     if lhs.prefix == rhs.prefix:
-        return Prefixed.new(lhs.number + rhs.number, lhs.prefix)
+        return Prefixed.new(
+            _exactly(lambda: lhs.number + rhs.number, lhs.number, rhs.number), lhs.prefix
+        )
 
     # Different prefix values. Scale to the smaller of the two
     smaller = lhs.prefix if lhs.prefix.value < rhs.prefix.value else rhs.prefix
-    newnum = lhs.scale(smaller).number + rhs.scale(smaller).number
-    return Prefixed.new(newnum, smaller)
+    lnum, rnum = lhs.scale(smaller).number, rhs.scale(smaller).number
+    return Prefixed.new(_exactly(lambda: lnum + rnum, lnum, rnum), smaller)
 
 
 def _subtract(lhs: Prefixed, rhs: Prefixed) -> Prefixed:
     """`Prefixed` Subtraction"""
     if lhs.prefix == rhs.prefix:
-        return Prefixed.new(lhs.number - rhs.number, lhs.prefix)
+        return Prefixed.new(
+            _exactly(lambda: lhs.number - rhs.number, lhs.number, rhs.number), lhs.prefix
+        )
 
     # Different prefix values. Scale to the smaller of the two
     smaller = lhs.prefix if lhs.prefix.value < rhs.prefix.value else rhs.prefix
-    newnum = lhs.scale(smaller).number - rhs.scale(smaller).number
-    return Prefixed.new(newnum, smaller)
+    lnum, rnum = lhs.scale(smaller).number, rhs.scale(smaller).number
+    return Prefixed.new(_exactly(lambda: lnum - rnum, lnum, rnum), smaller)
 
 
 def _scale_to_smaller(
